@@ -37,7 +37,9 @@ fn analysed_tree_carries_an_error(src: &str) -> bool
 		let x = typer.analyze(x);
 		let x = analyzer.analyze(x);
 		let dump = format!("{:?}", x);
-		if dump.contains("Error(")
+		// (lengths named by constants are not known here, because no IR is
+		// generated: that error is an artefact of doing the stages by hand)
+		if dump.matches("Error(").count() > dump.matches("Error(NotACompileTimeConstant").count()
 		{
 			return true;
 		}
